@@ -282,3 +282,130 @@ Proof.
   destruct (default_filters e _) as [fl|]; [|reflexivity].
   destruct (nodup_bytes _); [|reflexivity]. now rewrite expand_closed.
 Qed.
+
+(* ---- the main file holds exactly Keys, Data, State, EventType, Event -------------- *)
+Definition msgs_of_file (file : N) (cs : list component) : list omsg :=
+  flat_map (fun c => match c with CMsg f m => if f =? file then [m] else [] | _ => [] end) cs.
+
+Lemma msgs_of_file_app : forall f a b, msgs_of_file f (a ++ b) = msgs_of_file f a ++ msgs_of_file f b.
+Proof. intros. apply flat_map_app. Qed.
+
+Lemma msgs0_flat_map_nil : forall {A} (g : A -> list component) l,
+  (forall x, msgs_of_file 0 (g x) = []) -> msgs_of_file 0 (flat_map g l) = [].
+Proof.
+  intros A g l H. induction l as [|x l IH]; [reflexivity|].
+  cbn [flat_map]. now rewrite msgs_of_file_app, H, IH.
+Qed.
+
+Lemma msgs0_service : forall name ann ms,
+  (forall m, In m ms -> msgs_of_file 0 (fst m) = []) ->
+  msgs_of_file 0 (service_components name ann ms) = [].
+Proof.
+  intros name ann ms H. unfold service_components. rewrite msgs_of_file_app.
+  cbn [msgs_of_file flat_map app]. rewrite app_nil_r.
+  induction ms as [|m ms IH]; [reflexivity|]. cbn [flat_map]. rewrite msgs_of_file_app.
+  fold (msgs_of_file 0 (flat_map fst ms)). rewrite (H m (or_introl eq_refl)), IH; [reflexivity|].
+  intros m' Hm'. apply H. now right.
+Qed.
+
+Theorem main_file_messages : forall e fl,
+  msgs_of_file 0 (expand_with e fl) =
+    [keys_msg e; data_msg e; state_msg e fl; event_type_msg e; event_msg e].
+Proof.
+  intros e fl. unfold expand_with. rewrite !msgs_of_file_app.
+  assert (Hq : msgs_of_file 0 (query_components e) = []).
+  { unfold query_components. apply msgs0_service. intros m [<-|[<-|[<-|[]]]]; reflexivity. }
+  assert (Hc : msgs_of_file 0 (flat_map (command_components e) (e_commands e)) = []).
+  { apply msgs0_flat_map_nil. intros c. unfold command_components. apply msgs0_service.
+    intros m Hm. apply in_map_iff in Hm. destruct Hm as [md [<- _]]. reflexivity. }
+  assert (Hs : msgs_of_file 0 (flat_map (summary_components e) (e_summaries e)) = []).
+  { apply msgs0_flat_map_nil. intros s. reflexivity. }
+  rewrite Hq, Hc, Hs. reflexivity.
+Qed.
+
+(* ---- the same entity annotation on every part ------------------------------------ *)
+Definition psm_entities (cs : list component) : list bytes :=
+  flat_map (fun c => match c with
+    | CMsg _ m => match m_psm m with Some (en, _) => [en] | None => [] end
+    | _ => [] end) cs.
+Definition service_entities (cs : list component) : list bytes :=
+  flat_map (fun c => match c with
+    | CSvc _ s => match sv_ann s with SQuery en => [en] | SCommand en => [en] | STopic _ _ _ => [] end
+    | _ => [] end) cs.
+Definition topic_entities (cs : list component) : list bytes :=
+  flat_map (fun c => match c with
+    | CSvc _ s => match sv_ann s with STopic _ _ en => [en] | _ => [] end
+    | _ => [] end) cs.
+
+Lemma Forall_flat_map : forall {A B} (P : B -> Prop) (g : A -> list B) l,
+  (forall x, In x l -> Forall P (g x)) -> Forall P (flat_map g l).
+Proof.
+  intros A B P g l H. induction l as [|x l IH]; [constructor|].
+  cbn [flat_map]. apply Forall_app. split; [apply H; now left|apply IH; intros y Hy; apply H; now right].
+Qed.
+
+Lemma ann_service : forall (sel : list component -> list bytes) P name ann ms,
+  sel [] = [] ->
+  (forall a b, sel (a ++ b) = sel a ++ sel b) ->
+  (forall m, In m ms -> Forall P (sel (fst m))) ->
+  Forall P (sel [CSvc 1 (mkSvc (name ++ bs "Service") ann (map snd ms))]) ->
+  Forall P (sel (service_components name ann ms)).
+Proof.
+  intros sel P name ann ms Hnil Happ Hm Hs. unfold service_components. rewrite Happ.
+  apply Forall_app. split; [|exact Hs]. clear Hs.
+  induction ms as [|m ms IH]; cbn [flat_map].
+  - rewrite Hnil. constructor.
+  - rewrite Happ. apply Forall_app. split; [apply Hm; now left|apply IH; intros m' H'; apply Hm; now right].
+Qed.
+
+Lemma sel_flat_map : forall {A} (sel : list component -> list bytes) P (g : A -> list component) l,
+  sel [] = [] -> (forall a b, sel (a ++ b) = sel a ++ sel b) ->
+  (forall x, Forall P (sel (g x))) -> Forall P (sel (flat_map g l)).
+Proof.
+  intros A sel P g l Hnil Happ H. induction l as [|x l IH]; cbn [flat_map].
+  - rewrite Hnil. constructor.
+  - rewrite Happ. apply Forall_app. split; [apply H|exact IH].
+Qed.
+
+Lemma sel_expand : forall (sel : list component -> list bytes) P e fl,
+  sel [] = [] -> (forall a b, sel (a ++ b) = sel a ++ sel b) ->
+  Forall P (sel [CMsg 0 (keys_msg e); CMsg 0 (data_msg e); status_enum e; CMsg 0 (state_msg e fl);
+                 CMsg 0 (event_type_msg e); CMsg 0 (event_msg e)]) ->
+  Forall P (sel (query_components e)) ->
+  (forall c, Forall P (sel (command_components e c))) ->
+  Forall P (sel (publish_components e)) ->
+  (forall s, Forall P (sel (summary_components e s))) ->
+  Forall P (sel (expand_with e fl)).
+Proof.
+  intros sel P e fl Hnil Happ H1 H2 H3 H4 H5. unfold expand_with. rewrite !Happ.
+  apply Forall_app; split; [exact H1|]. apply Forall_app; split; [exact H2|].
+  apply Forall_app; split; [now apply sel_flat_map|]. apply Forall_app; split; [exact H4|].
+  now apply sel_flat_map.
+Qed.
+
+Theorem same_annotation : forall e fl,
+  Forall (eq (snake_name e)) (psm_entities (expand_with e fl))
+  /\ Forall (eq (snake_name e)) (service_entities (expand_with e fl))
+  /\ Forall (eq (full_name e)) (topic_entities (expand_with e fl)).
+Proof.
+  intros e fl.
+  assert (Ap : forall a b, psm_entities (a ++ b) = psm_entities a ++ psm_entities b) by (intros; apply flat_map_app).
+  assert (As : forall a b, service_entities (a ++ b) = service_entities a ++ service_entities b) by (intros; apply flat_map_app).
+  assert (At : forall a b, topic_entities (a ++ b) = topic_entities a ++ topic_entities b) by (intros; apply flat_map_app).
+  split; [|split].
+  - apply sel_expand; [reflexivity|exact Ap|cbn; repeat constructor| | |cbn; constructor|intros s; cbn; constructor].
+    + unfold query_components. apply ann_service; [reflexivity|exact Ap| |cbn; constructor].
+      intros m [<-|[<-|[<-|[]]]]; cbn; constructor.
+    + intros c. unfold command_components. apply ann_service; [reflexivity|exact Ap| |cbn; constructor].
+      intros m Hm. apply in_map_iff in Hm. destruct Hm as [md [<- _]]. cbn. constructor.
+  - apply sel_expand; [reflexivity|exact As|cbn; constructor| | |cbn; constructor|intros s; cbn; constructor].
+    + unfold query_components. apply ann_service; [reflexivity|exact As| |cbn; repeat constructor].
+      intros m [<-|[<-|[<-|[]]]]; cbn; constructor.
+    + intros c. unfold command_components. apply ann_service; [reflexivity|exact As| |cbn; repeat constructor].
+      intros m Hm. apply in_map_iff in Hm. destruct Hm as [md [<- _]]. cbn. constructor.
+  - apply sel_expand; [reflexivity|exact At|cbn; constructor| | |cbn; repeat constructor|intros s; cbn; repeat constructor].
+    + unfold query_components. apply ann_service; [reflexivity|exact At| |cbn; constructor].
+      intros m [<-|[<-|[<-|[]]]]; cbn; constructor.
+    + intros c. unfold command_components. apply ann_service; [reflexivity|exact At| |cbn; constructor].
+      intros m Hm. apply in_map_iff in Hm. destruct Hm as [md [<- _]]. cbn. constructor.
+Qed.
